@@ -30,6 +30,8 @@ Round 6: the operator installer is evaluated per call (installer_kinds) instead 
 names; compile_expr written as a generator (yield / yield from) is the same postfix emission.
 Round 7: operator methods handed back by the installer; the field / literal leaf told apart by
 try: field.field_name except AttributeError; the program under any local name.
+Round 8: the operator tables hold Python's own operators; the element of a repeated / optional
+field is named before the expressions over it are compiled.
 """
 import ast
 import copy
